@@ -59,6 +59,8 @@ func main() {
 
 func registerGroups() {
 	groups["LEX"] = runLEX
+	groups["ERRFMT"] = runERRFMT
+	groups["LIMIT"] = runLIMIT
 }
 
 func doReplay(e *Env, line string) int {
@@ -77,6 +79,12 @@ func doReplay(e *Env, line string) int {
 	f := strings.Fields(line)
 	if len(f) >= 2 && strings.HasPrefix(f[0], "LEX") {
 		fmt.Println("engine:", engineLex(string(unhx(f[1]))))
+	}
+	if len(f) == 4 && f[0] == "ERRFMT" {
+		var pos, pad int
+		fmt.Sscan(f[2], &pos)
+		fmt.Sscan(f[3], &pad)
+		fmt.Println("engine:", engineErrfmt(string(unhx(f[1])), pos, pad, false))
 	}
 	return 0
 }
